@@ -107,7 +107,7 @@ func init() {
 	w1("C18", "seeded scenario with maxReaders 1-3 and more readers than the limit x seeded schedule; non-trivial = two or more readers attached or a reader was closed by the path; distinct = distinct event-order hash")
 	w1("C19", "seeded scenario with on-demand sources / runOnDemand commands, source faults and timer races x seeded schedule; non-trivial = an on-demand start happened; distinct = distinct event-order hash")
 	w1("C20", "seeded scenario with hooks configured and simulated hook processes x seeded schedule; non-trivial = two or more hook launches; distinct = distinct event-order hash")
-	w1("C39", "seeded scenario with forward lists and reloads x seeded schedule; non-trivial = a forwarder handler was started; distinct = distinct event-order hash")
+	w1("C39", "seeded scenario with forward lists (one destination in ten of C39 runs written with its scheme in capitals) and reloads x seeded schedule; a panic while a forward list is applied ends every forwarder and is claimed too; non-trivial = a forwarder handler was started; distinct = distinct event-order hash", "*")
 	w1("C40", "seeded scenario with everything enabled (publishers, readers, API polls, reloads, hooks, forwarders, shutdown) x seeded schedule, built with the race detector; the scheduler's own synchronisation is hidden from the detector so happens-before is the program's; non-trivial = at least one publisher and one reader attached; distinct = distinct event-order hash", "*")
 	reg(&propDef{ID: "C33", World: "s2", Chunk: 600, Level: "exploration", Quick: 40000, Thorough: 4000000, QuickS: 60, ThorS: 900,
 		Rule:      "seeded sender (group ids with gaps, payload sizes) x seeded network (reorder window 0..2*MaxReordered, duplication with equal or different size, loss, late duplicates) x limits (MaxReordered 1-8, MaxPendingBytes 64..100000) x 1-3 concurrent pushers under the seeded scheduler; non-trivial = the arrival sequence contains reordering, duplication or loss; distinct = distinct event-log hash",
